@@ -76,7 +76,9 @@ func frozenObjects(th bool) []frozenObj {
 	P3, P2 := pts3(n3), pts2(n2)
 	meshes := map[string]func() *model3d.Mesh{
 		"icosphere2": func() *model3d.Mesh { return model3d.NewMeshIcosphere(model3d.XYZ(0.1, 0.2, 0.3), 1, 2) },
-		"torus":      func() *model3d.Mesh { return model3d.NewMeshTorus(model3d.XYZ(0, 0.1, 0), model3d.XYZ(0.2, 0.1, 1), 0.3, 0.9, 8, 12) },
+		"torus": func() *model3d.Mesh {
+			return model3d.NewMeshTorus(model3d.XYZ(0, 0.1, 0), model3d.XYZ(0.2, 0.1, 1), 0.3, 0.9, 8, 12)
+		},
 		"two-boxes": func() *model3d.Mesh {
 			m := model3d.NewMeshRect(model3d.XYZ(-1.2, -1, -0.8), model3d.XYZ(-0.2, 0.3, 0.9))
 			m.AddMesh(model3d.NewMeshRect(model3d.XYZ(0.2, -0.5, -0.5), model3d.XYZ(1.3, 1.1, 0.4)))
